@@ -160,7 +160,18 @@ fn counts_array(c: &StateCounts) -> [usize; 6] {
 impl Progress for SinkProgress {
     fn update(&self, counts: &StateCounts) {
         let c = counts_array(counts);
-        trace(|| format!("update {} {} {} {} {} {}", c[0], c[1], c[2], c[3], c[4], c[5]));
+        trace(|| {
+            format!(
+                "update {} {} {} {} {} {} {}",
+                c[0],
+                c[1],
+                c[2],
+                c[3],
+                c[4],
+                c[5],
+                counts.total()
+            )
+        });
         self.0.update(c);
     }
     fn task_started(&self, id: BuildId, _build: &Build) {
